@@ -6,6 +6,7 @@ import hashlib
 import json
 import os
 import random
+import zlib
 import re
 import shutil
 import struct
@@ -365,6 +366,29 @@ def gen_c10_cases(fmts, bwords, rng, tier):
                         dst = pack_pixels(F.bpp, [], 0, dimgw, rng)
                         cases.append(("S", F, C, "S %d %d %d %d %d %d %d %d %s %s 3 sd sa pd"
                                       % (C.code, F.code, k % npal, simgw, sx, dx, dimgw, len(row), hx(src), hx(dst))))
+            # ---- long rows: the store / fetch loops work through scratch buffers of fixed size (a scanline buffer on the
+            # stack up to 8192 bytes per row - 512 float or 2048 8-bit pixels -, then a heap one; chunked conversion
+            # loops), so rows that cross those sizes are cases of their own
+            if F.dst_ok and not F.yuv:
+                lens = ([257, 523] if C is RF else [2051]) if quick else ([255, 256, 257, 300, 511, 512, 513, 777] if C is RF else [2047, 2048, 2049, 2600])
+                if quick and (zlib.crc32(F.name.encode()) + len(cases)) % 3 != 0 and F.name not in ("a8r8g8b8", "r5g6b5", "a8", "a1"):
+                    lens = lens[:1] if C is RF else []
+                for n in lens:
+                    k += 1
+                    sx = k % 2
+                    simgw = sx + n + 1
+                    dx = offs[k % len(offs)]
+                    dimgw = dx + n + 1
+                    dst = pack_pixels(F.bpp, [], 0, dimgw, rng)
+                    if C is A8:
+                        row = [(a << 24) | (r << 16) | (g << 8) | b for (a, r, g, b) in canonical_values_8(rng, n)]
+                        src = pack_pixels(32, row, sx, simgw, rng)
+                    else:
+                        row = float_values([F.a, F.r, F.g, F.b, 8], rng, n)
+                        px = [(r) | (g << 32) | (b << 64) | (a << 96) for (a, r, g, b) in row]
+                        src = pack_pixels(128, px, sx, simgw, rng, valid_float=True)
+                    cases.append(("S", F, C, "S %d %d %d %d %d %d %d %d %s %s 3 sd sa pd"
+                                  % (C.code, F.code, k % npal, simgw, sx, dx, dimgw, n, hx(src), hx(dst))))
     return cases
 
 
